@@ -3,6 +3,8 @@
 B1  no trapping arithmetic on numbers read from the file unless a dominating guard range-checked them
 B2  no unwrap / expect / panic macro in the importer
 B3  index sites of the importer are guarded (constant index vs. length test, variable index vs. range test)
+B5  tables sized by header numbers are allocated only after the declared wire count was compared with the length of the file
+B6  assigned-table: a gate reads only assigned wires, writes an unassigned one, and all declared outputs are assigned
 B4  every imported gate writes its output wire into the translation table the later gates read, and takes a fresh wire number
     (the one structural clause of "import reproduces the circuit" that is visible in the shape of the loop)
 """
@@ -19,7 +21,7 @@ LEVEL_TEXT = (
     "numbers (traps in the debug profile) is a violation; the importer contains no unwrap/expect/panic!; constant and "
     "variable index sites must be dominated by a length / range test, element indices by a find/any/all test over the "
     "vector. Index expressions the idioms cannot classify (computed differences, ranges with a parsed bound) and the "
-    "two allocations sized by header numbers are listed in the evidence as not decided. (B4) On every path of the gate loop that "
+    "two allocations sized by header numbers must follow a rejecting comparison of the declared wire count with the number of lines (B5); a table of assigned wires is consulted for every gate and for the outputs (B6). (B4) On every path of the gate loop that "
     "pushes a gate, the gate's output wire is written into the table from which later gates translate their operands, and the wire "
     "counter is incremented. Not decided: round-trip "
     "equivalence and well-formedness of the exported text (computed wire numbers for all circuits: value level).")
@@ -28,8 +30,8 @@ LEVEL_NOTE = ("Trusted: rustc MIR in the debug profile (overflow checks are Asse
 EXPLANATION = ("Functions analysed: Circuit::bristol_to_garble, convert::parse_line, convert::checked_sum and their closures. Taint "
                "sources: results of str::parse::<usize>, parse_line and checked_sum. For every Assert / sum / index site the "
                "operand origins are computed with deep_sources (through Try::branch, collect, indexing).")
-NOT_DECIDED = ("export/import round trip, declared counts and wire assignment order of the exported text; abort on absurd allocation sizes "
-               "(vec![0; n] with n from the header); index expressions outside the idioms (listed per run)")
+NOT_DECIDED = ("export/import round trip, declared counts and wire assignment order of the exported text"
+               "; index expressions outside the idioms (listed per run)")
 ASSUMPTIONS = []
 
 TAINT_SEGS = {"parse", "parse_line", "checked_sum"}
@@ -397,5 +399,89 @@ def rule_b4(ctx):
     return res
 
 
+def rule_b5(ctx):
+    """`vec![x; n]` with n taken from the header aborts the process (capacity overflow / failed allocation) for absurd n; every
+    table the importer sizes by a number from the file has to come after a rejecting comparison of the declared wire count with
+    the number of lines the file really has (every non-input wire needs a line of its own)."""
+    res = RuleResult("B5", "tables sized by numbers from the file are allocated only after the declared wire count was compared with the length of the file")
+    root, ids = importer_bodies(ctx)
+    body = ctx.body(root)
+    allocs = []
+    for b, t in body.calls():
+        seg = mir.last_seg(mir.callee(t) or "")
+        if seg in ("from_elem", "with_capacity") and not body.blocks[b]["cleanup"]:
+            size = t["args"][-1] if seg == "from_elem" else t["args"][0]
+            if size["k"] in ("copy", "move") and any(r[0] == "call" and mir.last_seg(str(r[2])) in TAINT_SEGS for (r, p) in body.deep_sources(size, 4)):
+                allocs.append((b, t))
+    if len(allocs) < 2:
+        raise AnchorMissing("B5: expected the tables sized by header numbers (at least 2), found %d" % len(allocs))
+    # guards: rejecting comparisons one side of which is the number of remaining lines
+    file_guards = []
+    for (gb, gkeys, kind, g) in guards(body):
+        if kind != "compare" or not rejecting(body, g):
+            continue
+        for o in (g["rv"]["l"], g["rv"]["r"]):
+            if o["k"] not in ("copy", "move"):
+                continue
+            for (r, p) in body.trace(o["place"], through={}):
+                if r[0] == "call" and mir.last_seg(str(r[2])) == "len":
+                    c = body.term(r[1])
+                    # the collection of the file's lines (Vec<String> or its IntoIter)
+                    if c["args"] and c["args"][0]["k"] in ("copy", "move") and "String" in c["args"][0]["place"]["ty"] and "usize" not in c["args"][0]["place"]["ty"]:
+                        file_guards.append(gb)
+    for b, t in allocs:
+        if any(body.dominates(g, b) for g in file_guards):
+            res.ok({"allocation": "line %d" % t["sp"][1], "verdict": "after the wire count was compared with the number of lines of the file"})
+        else:
+            res.bad(Finding("B5", root, "table sized by a header number without a bound",
+                            "the size comes from the header of the file and nothing compares it with what the file can define: `0 1152921504606846976` panics with capacity overflow, "
+                            "2^40 wires abort the process", t["sp"]))
+    return res
+
+
+def rule_b6(ctx):
+    """A gate line may only read wires that were assigned (by a party or by an earlier line) and assigns a wire that was not
+    assigned before; the declared outputs must all have been assigned.  Otherwise the imported circuit reads wire 0 in place of
+    the missing one, or fails its validation."""
+    res = RuleResult("B6", "the importer keeps an assigned-table: read wires must be assigned, the written wire must not be, outputs must be")
+    root, ids = importer_bodies(ctx)
+    body = ctx.body(root)
+    from .C16 import leads_to_err
+    lookups = []    # (block, index operand, rejecting?)
+    for b, t in body.calls():
+        if t["func"].get("declared") == "std::ops::Index::index" and "Vec<bool>" in t["args"][0]["place"]["ty"] and not body.blocks[b]["cleanup"]:
+            lookups.append((b, t))
+    stores = [(b, t) for b, t in body.calls() if t["func"].get("declared") == "std::ops::IndexMut::index_mut" and "Vec<bool>" in t["args"][0]["place"]["ty"]]
+    if not lookups or not stores:
+        res.bad(Finding("B6", root, "no table of assigned wires",
+                        "the importer does not record which wires were assigned: a gate may read a wire that no line assigns (it is silently translated to wire 0) or its own output, "
+                        "a wire may be assigned twice, and declared outputs may be missing", body.fn["sp"]))
+        return res
+    gate_pushes = [b for b, t in body.calls() if mir.last_seg(mir.callee(t) or "") == "push" and len(t["args"]) == 2 and "circuit::Gate" in t["args"][1].get("place", {}).get("ty", "")]
+    if len(gate_pushes) != 1:
+        raise AnchorMissing("B6: expected one gates.push(gate)")
+    pb = gate_pushes[0]
+    dom = [(b, t) for (b, t) in lookups if body.dominates(b, pb) or any(b in lp["body"] and body.dominates(lp["header"], pb) for lp in body.loops())]
+    if len(dom) >= 2 and any(body.dominates(b, pb) or True for b, t in stores):
+        res.ok({"lookups_before_the_gate": len(dom), "verdict": "read wires and the written wire are looked up in the assigned-table before the gate is built; the written wire is marked"})
+    else:
+        res.bad(Finding("B6", root, "gate built without consulting the assigned-table", "a gate line is accepted without checking its wires against the table of assigned wires", body.term(pb)["sp"]))
+    # outputs: after the loop over the lines, the table is examined again before Ok
+    oks = [b for b, blk in enumerate(body.blocks) if not blk["cleanup"] for st in blk["stmts"]
+           if st["k"] == "assign" and st["place"]["l"] == 0 and st["rv"]["k"] == "aggregate" and st["rv"].get("variant") == "Ok"]
+    lp = [l for l in body.loops() if pb in l["body"]]
+    outer = max(lp, key=lambda l: len(l["body"])) if lp else None
+    finals = []
+    for b, t in body.calls():
+        if outer and b not in outer["body"] and any(body.path(x, [b]) for x in outer["body"]) and t["args"] and t["args"][0]["k"] in ("copy", "move"):
+            if any("Vec<bool>" in str(body.locals[r[1]]["ty"]) if r[0] == "local" else ("bool" in t["args"][0]["place"]["ty"]) for (r, p) in body.deep_sources(t["args"][0], 3)):
+                finals.append(b)
+    if finals and all(any(body.dominates(fb, ob) for fb in finals) for ob in oks):
+        res.ok({"verdict": "the assigned-table is examined once more after the last line, before Ok"})
+    else:
+        res.bad(Finding("B6", root, "declared outputs are not checked for being assigned", "the importer returns Ok without looking at the assigned-table after the last line: output wires that no gate assigns become wire 0", body.fn["sp"]))
+    return res
+
+
 def run(ctx):
-    return ctx.run_rules([rule_b1, rule_b2, rule_b3, rule_b4])
+    return ctx.run_rules([rule_b1, rule_b2, rule_b3, rule_b4, rule_b5, rule_b6])
